@@ -112,8 +112,10 @@ TUPLES = ["(1,)", "(1, 2)", "()"]
 SETS = ["{1}", "{1, 2}", "set()"]
 MATS = ["M2(1, 2, 3, 4)", "M2(0, 1, 1, 0)"]
 NUMS = INTS + ["True", "False", "2.5", "1.0", "(3+4j)"]
+ODD = ["Decimal('1.5')", "Decimal('1.23456789012345678901234567890123')", "Decimal('-0')",
+       "Counter({'a': 2, 'b': -1})", "Counter()"]  # values whose unary plus is not the identity
 POOL = (INTS + ["True", "False"] + STRS + LISTS + TUPLES + SETS +
-        ["None", '{1: "int", "1": "str"}', "2.5", "1.0", "(3+4j)"] + MATS)
+        ["None", '{1: "int", "1": "str"}', "2.5", "1.0", "(3+4j)"] + MATS + ODD)
 SEQS = ["[0, 1, 2, 3, 4, 5]", "[1, 2]", '"x_y"', '"ab"', "(1, 2)", "[1]"]
 SMALL = ["0", "1", "-1", "2", "True", "2.5", '"1"', '"ab"', "[1]", "[1, 2]", "(1, 2)", "{1}", "None",
          '{1: "int", "1": "str"}']
@@ -125,9 +127,13 @@ SLICE_LITS = ["slice(1, 3)", "slice(None, 2)", "slice(None, None, 2)", "slice(1,
 
 
 def _lit(s: str):
+    from collections import Counter
+    from decimal import Decimal
+
     from .nodes_c18 import M2
 
-    return eval(s, {"M2": M2, "__builtins__": {"set": set, "slice": slice, "True": True, "False": False, "None": None}})
+    return eval(s, {"M2": M2, "Decimal": Decimal, "Counter": Counter,
+                    "__builtins__": {"set": set, "slice": slice, "True": True, "False": False, "None": None}})
 
 
 # ----------------------------------------------------------------------------- generation
@@ -323,6 +329,8 @@ class _Gen:
 
     def src(self, value, ctx, ran=None, label=None):
         s = {"value": value, "ctx": ctx, "ran": self.rng.random() < 0.7 if ran is None else ran, "now": value}
+        if ctx != "mac" and self.rng.random() < 0.25:
+            s["kind"] = "macro"  # the operand holder is a single-output COMPOSITE, not a function node
         if ctx == "mac":
             k = sum(1 for x in self.sources if x["ctx"] == "mac")
             if k < 3:
@@ -422,11 +430,13 @@ class _Gen:
             value = rng.choice(POOL)
             sdef = {"value": value, "ctx": ctx, "ran": rng.random() < 0.7, "label": label, "late": True, "made": True,
                     "now": value, "cur": label}
+            if rng.random() < 0.25:
+                sdef["kind"] = "macro"
             self.sources.append(sdef)
             i = len(self.sources) - 1
             self.avail.append({"ref": ["src", i], "ctx": ctx, "val": ("val", _lit(value))})
             op = {"op": "edit", "kind": kind, "src": i,
-                  "source": {k: v for k, v in sdef.items() if k in ("value", "ctx", "ran", "label")}}
+                  "source": {k: v for k, v in sdef.items() if k in ("value", "ctx", "ran", "label", "kind")}}
         self.ops.append(op)
         self.op_val.append(None)
 
@@ -458,6 +468,10 @@ class _Gen:
             self.ops.append(op)
             self.op_val.append(None)
             return
+        if op["op"] == "getitem" and op["owner"][0] == "src" and op["owner_form"] == "node" and \
+                self.sources[op["owner"][1]].get("kind") == "macro" and op["operands"][0][0] == "ref":
+            # composite[<node>] walks the node looking for a child of that name (KF-C18-5 is judged on raw keys)
+            op["owner_form"] = "channel"
         res = self.eval_op(op) if res is None else res
         self.ops.append(op)
         self.op_val.append(res)
@@ -899,7 +913,6 @@ def corpus():
 
 _VARIANT = None
 _CREATED: list = []
-_RETURNED: list = []
 
 
 def _variant():
@@ -943,18 +956,6 @@ def _install_hook():
 
     __init__._c18_hook = True
     Node.__init__ = __init__
-
-    from pyiron_workflow.mixin.injection import OutputDataWithInjection
-
-    orig_inj = OutputDataWithInjection._node_injection
-
-    @functools.wraps(orig_inj)
-    def _node_injection(self, *a, **k):
-        res = orig_inj(self, *a, **k)
-        _RETURNED.append(res)  # what every (also an inner) injection handed back
-        return res
-
-    OutputDataWithInjection._node_injection = _node_injection
 
 
 def _apply(x, d, args):
@@ -1065,10 +1066,48 @@ PROBE = ("probe_owner__user_input", "Add", ("int", "1"))  # a fixed key, to see 
 def _probe_label():
     """the label the library gives to a fixed expression on a fresh parentless node (independent of any case)"""
     import pyiron_workflow.nodes.standard as std
-    from pyiron_workflow.nodes.standard import Add
 
     n = std.UserInput(0, label="probe_owner")
-    return n.outputs.user_input._get_injection_label(Add, 1)
+    return (n + 1).label
+
+
+def _first_input(n):
+    return n.inputs[n.inputs.labels[0]]
+
+
+def _make_source(kind, v, label, parent):
+    """an operand holder: a function node (UserInput) or a single-output COMPOSITE (a macro)"""
+    import pyiron_workflow.nodes.standard as std
+
+    if kind == "macro":
+        from .nodes_c18 import Passes
+
+        n = Passes(v, label=label, parent=parent)
+    else:
+        n = std.UserInput(v, label=label, parent=parent)
+    n.recovery = None
+    n.use_cache = False  # "once run": a cache hit is not a run (what may be served from a cache is C05/C08)
+    return n
+
+
+def _slice_node_for(parent, comps):
+    """the Slice helper among `parent`'s children that is wired to / holds exactly these components (public surface only)"""
+    from pyiron_workflow.mixin.has_interface_mixins import HasChannel
+
+    if parent is None:
+        return None
+    for c in parent.children.values():
+        if type(c).__name__ != "Slice" or len(c.inputs) < 3:
+            continue
+        ok = True
+        for inp, a in zip(c.inputs, comps):
+            if isinstance(a, HasChannel):
+                ok = ok and any(x is a.channel for x in inp.connections)
+            else:
+                ok = ok and not inp.connections and type(inp.value) is type(a) and repr(inp.value) == repr(a)
+        if ok:
+            return c
+    return None
 
 
 class _Run:
@@ -1101,18 +1140,18 @@ class _Run:
             v = _lit(s["value"])
             if s["ctx"] == "mac" and n_mac < 3:
                 n = self.wfs["mac"].children[f"m{n_mac}"]
-                n.inputs.user_input.value = v
+                _first_input(n).value = v
                 n_mac += 1
             else:
-                n = std.UserInput(v, label=s.get("label") or f"s{i}", parent=self.wfs.get(s["ctx"]))
+                n = _make_source(s.get("kind"), v, s.get("label") or f"s{i}", self.wfs.get(s["ctx"]))
             n.recovery = None
-            n.use_cache = False  # "once run": a cache hit is not a run (what may be served from a cache is C05/C08)
+            n.use_cache = False
             if s["ran"]:
                 n.run()
             self.src_nodes.append(n)
             self.src_vals.append(v)
             self.src_ctx.append(s["ctx"])
-            self.src_info.append([self.PAR_ID[s["ctx"]], n.outputs.user_input.scoped_label, n.label])
+            self.src_info.append([self.PAR_ID[s["ctx"]], n.channel.scoped_label, n.label])
         if "mac" in self.wfs:
             for lab in ("m0", "m1", "m2"):  # holders no source of the case uses: plain children of the macro
                 ch = self.wfs["mac"].children[lab]
@@ -1151,7 +1190,7 @@ class _Run:
             n = self.src_nodes[i]
             if n is None:
                 return self.resolve(["src", 0])
-            return n, n.outputs.user_input, ("val", self.src_vals[i]), ("src", i), f"c{i}", self.src_ctx[i]
+            return n, n.channel, ("val", self.src_vals[i]), ("src", i), f"c{i}", self.src_ctx[i]
         j = ref[1]
         if 0 <= j < len(self.op_node) and self.op_node[j] is not None:
             k = self.op_node[j]
@@ -1319,8 +1358,8 @@ class _Run:
                 self.rec.append(r)
                 return
             n.failed = False
-            had_data = n.outputs.user_input.value is not NOT_DATA
-            n.inputs.user_input.value = v
+            had_data = n.channel.value is not NOT_DATA
+            _first_input(n).value = v
             self.src_vals[i] = v
             if had_data:
                 n.run()  # changed AND re-run, as a user would (a source never run stays that way)
@@ -1388,7 +1427,7 @@ class _Run:
                 else:
                     n.label = new_label
                 r["src"] = i
-                lines.append(f"rename c{i} {_hx(n.outputs.user_input.scoped_label)}")
+                lines.append(f"rename c{i} {_hx(n.channel.scoped_label)}")
                 if self.src_ctx[i] in self.wfs:
                     par = self.PAR_ID[self.src_ctx[i]]
                     lines += [f"unchild {par} {_hx(old_label)}", f"child {par} {_hx(new_label)}"]
@@ -1399,14 +1438,12 @@ class _Run:
                     raise LookupError("source exists")
                 ctx = sdef["ctx"]
                 v = _lit(sdef["value"])
-                n = std.UserInput(v, label=sdef["label"], parent=self.wfs.get(ctx))
-                n.recovery = None
-                n.use_cache = False
+                n = _make_source(sdef.get("kind"), v, sdef["label"], self.wfs.get(ctx))
                 if sdef.get("ran"):
                     n.run()
                 self.src_nodes[i], self.src_vals[i], self.src_ctx[i] = n, v, ctx
                 r["src"] = i
-                lines.append(f"chan {i} {self.PAR_ID[ctx]} {_hx(n.outputs.user_input.scoped_label)}")
+                lines.append(f"chan {i} {self.PAR_ID[ctx]} {_hx(n.channel.scoped_label)}")
                 if ctx in self.wfs:
                     lines.append(f"child {self.PAR_ID[ctx]} {_hx(n.label)}")
             else:
@@ -1424,6 +1461,7 @@ class _Run:
 
     def op(self, op):
         from pyiron_workflow.channels import NOT_DATA
+        from pyiron_workflow.node import Node
 
         d = op["op"]
         onode, ochan, oexp, oid, otok, ctx = self.resolve(op["owner"])
@@ -1466,14 +1504,15 @@ class _Run:
         raised = None
         node = None
         _CREATED.clear()
-        _RETURNED.clear()
         try:
             node = _apply(x, d, args)
         except Exception as e:  # noqa: BLE001
             raised = type(e).__name__
         made = list(_CREATED)
         _CREATED.clear()
+        okind = "macro" if type(onode).__name__ == "Passes" else "node"
         r: dict = {"d": d, "ctx": ctx, "expr": [ctx, list(oid), d, [list(a) for a in arg_ids]],
+                   "owner_kind": okind, "owner_form": op["owner_form"],
                    "toks": arg_toks, "raised": raised, "n_made": len(made), "session": int(self.restarted),
                    "exp": None if exp is None else [exp[0], exp[1] if exp[0] == "exc" else repr(exp[1])],
                    "count_before": before}
@@ -1495,6 +1534,16 @@ class _Run:
         r["count_after"] = self.count(ctx)
         kids_after = list(self.wfs[ctx].children.values()) if ctx in self.wfs else []
         r["children_same"] = len(kids_before) == len(kids_after) and all(a is b for a, b in zip(kids_before, kids_after))
+        if node is not None and not isinstance(node, Node):
+            # the expression was evaluated to something that is not a node at all (the operand itself, a plain value)
+            r["injected"] = False
+            r["no_node"] = type(node).__qualname__
+            r["line"] = " ".join(["slice", otok, *arg_toks, flags] if d == "slice" else ["inj", otok, d, *arg_toks])
+            self.obs.append(f"nonode {d} {r['no_node']}")
+            self.rec.append(r)
+            self.op_node.append(None)
+            self.bump("nonode")
+            return
         if node is None and not made:
             # the expression raised without making any node
             r["injected"] = False
@@ -1518,7 +1567,8 @@ class _Run:
                 news = int(any(type(m).__name__ == "Slice" for m in made))
                 if node is None:
                     # the new GetItem node raised while auto-running: it was taken out of the parent and cut off
-                    snode = next((m for m in _RETURNED if type(m).__name__ == "Slice"), None)
+                    snode = next((m for m in made if type(m).__name__ == "Slice"), None) or \
+                        _slice_node_for(self.wfs.get(ctx), args)
                     r["line"] += " !"
                     r["lost"] = True
                 else:
@@ -1723,11 +1773,17 @@ def oracle(case, r):
                 break
             continue
         where = f"op #{i} {o['expr']}"
+        if o.get("no_node"):
+            fails.append(_f("no-node", f"{where}: the expression yields no node but a {o['no_node']} "
+                            f"(Python gives {o['exp']})", trigger=d))
+            break
         if not o.get("injected"):
             # the expression raised before any node was made: then Python must raise too
             if o["exp"] is not None and o["exp"][0] == "val":
+                # attribute / item access on a COMPOSITE in node form is taken for child access (KF-C18-5)
+                comp = o.get("owner_kind") == "macro" and o.get("owner_form") == "node" and d in ("getattr", "getitem", "slice")
                 fails.append(_f("raised-instead-of-node", f"{where}: raised {o['raised']} where Python "
-                                f"gives {o['exp'][1]}", trigger=d))
+                                f"gives {o['exp'][1]}", trigger=d, composite_access=bool(comp)))
                 break
             continue
         # the operator table
